@@ -259,6 +259,23 @@ def make_request(rnd, ctx, J, CH):
     return req
 
 
+def depth_request(rnd, ctx, J, req):
+    """send / send_to with automatic fee, random change count and a confirmation requirement; the amount needs more than
+    one of the sufficiently confirmed outputs (a selection made with another requirement would look different)"""
+    from vf import wallet_env
+    mc = rnd.choice([3, 6])
+    deep = sorted(u['value'] for u in J.wallet_unspent(mc).values())
+    kind = rnd.choice(['send_to', 'send'])
+    nrec = 1 if kind == 'send_to' else 2
+    total = max(deep[-1] + (sum(deep) - deep[-1]) // rnd.choice([2, 3]), 2000) if len(deep) >= 2 else (deep[0] // 2 if deep else 10 ** 6)
+    recs = []
+    for _ in range(nrec):
+        addr, script = wallet_env.external_address(rnd, ctx.network)
+        recs.append({'address': addr, 'script': script.hex(), 'amount': int(total // nrec)})
+    return {'kind': kind, 'min_confirms': mc, 'broadcast': rnd.random() < 0.5, 'rseed': req['rseed'], 'recipients': recs,
+            'fee_mode': 'auto', 'n_change': rnd.choice([0, 0, 0, 2])}
+
+
 def execute(req, ctx):
     """Run the request through the library API. Returns the WalletTransaction."""
     from vf import wallet_env
@@ -321,13 +338,23 @@ def run_wallet(case, col):
         return
     eq = rnd.choice([10 ** 5, 10 ** 6]) * scale
     last_op = None
+    if case.get('depth_scenario'):
+        # dedicated class: several deep outputs that must be combined + one large shallow output that alone would cover
+        # every request; all requests carry a confirmation requirement the shallow output does not meet
+        n_utxo = 0
+        for j in range(rnd.randint(3, 6)):
+            CH.fund(rnd.choice(addrs), (rnd.choice([4, 5, 7]) * 10 ** 6 + rnd.randrange(10 ** 5)) * scale, network, confirmed=True)
+        CH.mine(rnd.choice([6, 8, 12]))
+        deep_total = sum(u['value'] for u in CH.unspent(set(addrs)).values())
+        CH.fund(rnd.choice(addrs), 3 * deep_total + 777, network, confirmed=True)
+        CH.mine(rnd.choice([0, 1]))
     for j in range(n_utxo):
         v = rnd.choice([eq, eq, 600, 999, 1000, 1001, 5000 * scale, 10 ** 7 * scale + j, 10 ** 8 * scale + j, rnd.randrange(2000, 10 ** 7) * scale])
         # several outputs of one funding transaction (same txid) and funding at different depths
         last_op = CH.fund(rnd.choice(addrs), v, network, confirmed=rnd.random() < 0.8, same_tx_as=last_op if rnd.random() < 0.35 else None)
         if rnd.random() < 0.3:
             CH.mine(rnd.choice([1, 2, 5]))
-    if rnd.random() < 0.5 and n_utxo >= 2:
+    if rnd.random() < 0.5 and n_utxo >= 2 and not case.get('depth_scenario'):
         # everything so far gets deep, then one large shallow output arrives: requests with a confirmation requirement
         # must leave it alone even though it alone would cover them
         CH.mine(rnd.choice([3, 6, 10]))
@@ -341,6 +368,8 @@ def run_wallet(case, col):
     for step in range(case['n_req']):
         CH.snapshot()
         req = make_request(rnd, ctx, J, CH)
+        if case.get('depth_scenario'):
+            req = depth_request(rnd, ctx, J, req)
         label = '%s/%s' % (req['kind'], req['fee_mode'])
         before_unspent = J.wallet_unspent(req['min_confirms'])
         before_all = J.wallet_unspent(0)
@@ -474,7 +503,7 @@ def plan(tier, seed, scale=1.0):
     thorough = tier == 'thorough'
     nshard = 16
     nw = int((1600 if thorough else 96) * scale)
-    return [{'shard': i, 'nshard': nshard, 'n_wallets': max(1, nw // nshard), 'n_req': 14 if thorough else 7} for i in range(nshard)]
+    return [{'shard': i, 'nshard': nshard, 'n_wallets': max(1, nw // nshard), 'n_req': 14 if thorough else 7, 'n_depth': 6 if thorough else 1} for i in range(nshard)]
 
 
 def run_shard(spec, col):
@@ -490,4 +519,10 @@ def run_shard(spec, col):
         wt = rnd.choice(['legacy', 'p2sh-segwit', 'segwit']) if not network.startswith('dogecoin') else 'legacy'
         case = {'wseed': '%d-%d-%d' % (spec['seed'], spec['shard'], k), 'kind': kind, 'wt': wt, 'network': network,
                 'n_utxo': rnd.choice([1, 2, 3, 5, 8, 12, 40 if k % 7 == 0 else 6]), 'n_req': spec['n_req']}
+        run_wallet(case, col)
+    for k in range(spec.get('n_depth', 1)):
+        network = rnd.choice(NETWORKS)
+        wt = rnd.choice(['legacy', 'p2sh-segwit', 'segwit']) if not network.startswith('dogecoin') else 'legacy'
+        case = {'wseed': '%d-%d-depth%d' % (spec['seed'], spec['shard'], k), 'kind': rnd.choice(['hd', 'hd', 'single', 'multisig']), 'wt': wt,
+                'network': network, 'n_utxo': 0, 'n_req': 3, 'depth_scenario': True}
         run_wallet(case, col)
